@@ -289,6 +289,42 @@ fn c01(ctx: &BoardCtx, p: &Pos, fen: &str, b: &mut Bitboard) {
     if nonq_legal != expected_nonq {
         ctx.viol("nonquiescent:legal_subset_differs".into(), fen, json!({"expected": expected_nonq, "actual": nonq_legal}));
     }
+    // (3b) every public entry point of the generator gives the same answer: the `_with_buffer`
+    // forms (what the search calls, into a buffer that already holds something), `is_move_legal`,
+    // `is_any_move_non_quiescent`
+    {
+        let sentinel = pseudo.first().copied();
+        let mut buf: Vec<Move> = sentinel.into_iter().collect();
+        let keep = buf.len();
+        b.generate_pseudo_legal_moves_with_buffer(&mut buf);
+        let mut a: Vec<u64> = buf[keep..].iter().map(|m| m.bits).collect();
+        a.sort();
+        let mut e: Vec<u64> = pseudo.iter().map(|m| m.bits).collect();
+        e.sort();
+        if a != e || buf[..keep].iter().map(|m| m.bits).collect::<Vec<_>>() != sentinel.iter().map(|m| m.bits).collect::<Vec<_>>() {
+            ctx.viol("entry_points:generate_pseudo_legal_moves_with_buffer_differs".into(), fen, json!({"with_buffer": buf.iter().map(|m| m.to_uci_string()).collect::<Vec<_>>(), "plain": pseudo.iter().map(|m| m.to_uci_string()).collect::<Vec<_>>()}));
+        }
+        let mut buf: Vec<Move> = sentinel.into_iter().collect();
+        b.generate_pseudo_legal_non_quiescent_moves_with_buffer(&mut buf);
+        let mut a: Vec<u64> = buf[keep..].iter().map(|m| m.bits).collect();
+        a.sort();
+        if a != nonq_bits {
+            ctx.viol("entry_points:generate_pseudo_legal_non_quiescent_moves_with_buffer_differs".into(), fen, json!({"with_buffer": buf.iter().map(|m| m.to_uci_string()).collect::<Vec<_>>(), "plain": nonq.iter().map(|m| m.to_uci_string()).collect::<Vec<_>>()}));
+        }
+        let any_nq = Bitboard::is_any_move_non_quiescent(&pseudo);
+        let want_nq = p.pseudo_legal().iter().any(|m| m.is_capture() || m.promo != 0);
+        if any_nq != want_nq {
+            ctx.viol(format!("entry_points:is_any_move_non_quiescent:expected_{}", want_nq), fen, json!({"expected": want_nq, "actual": any_nq}));
+        }
+        let legal_set: std::collections::HashSet<&String> = expected.iter().collect();
+        for &mv in &pseudo {
+            let u = mv.to_uci_string();
+            let got = b.is_move_legal(mv);
+            if got != legal_set.contains(&u) {
+                ctx.viol(format!("entry_points:is_move_legal:expected_{}", !got), fen, json!({"move": u, "expected": !got, "actual": got}));
+            }
+        }
+    }
     // (4) flags of every legal move
     for rm in &ref_legal {
         let u = rm.uci();
@@ -1233,6 +1269,7 @@ fn c14(ctx: &BoardCtx, p: &Pos, fen: &str, b: &mut Bitboard) {
     let mut local = BTreeMap::new();
     count_state(&mut local, p, &ref_legal);
     let before = snap(b);
+    let c14_pseudo = b.generate_pseudo_legal_moves();
     for rm in &ref_legal {
         let u = rm.uci();
         let expected = san(p, rm);
@@ -1280,6 +1317,17 @@ fn c14(ctx: &BoardCtx, p: &Pos, fen: &str, b: &mut Bitboard) {
                 }
             }
             Err(e) => ctx.viol("uci_to_pgn_rejects_legal_move".into(), fen, json!({"move": u, "error": format!("{:?}", e)})),
+        }
+        // the other public way to the same text: Move::to_pgn_string (a quarter of the moves)
+        if rm.from % 4 == 0 {
+            let rk = mkey_ref(rm);
+            if let Some(sm) = c14_pseudo.iter().find(|m| mkey_sub(m) == rk) {
+                match sm.to_pgn_string(b) {
+                    Ok(actual) if actual == expected => {}
+                    Ok(actual) => ctx.viol("entry_points:to_pgn_string_differs".into(), fen, json!({"move": u, "expected": expected, "actual": actual})),
+                    Err(e) => ctx.viol("entry_points:to_pgn_string_rejects_legal_move".into(), fen, json!({"move": u, "error": format!("{:?}", e)})),
+                }
+            }
         }
         if snap(b) != before {
             // C13's business
